@@ -91,12 +91,124 @@ SEED_TYPES = (int, numpy.int64, numpy.int32)
 
 
 def shards(tier, seed):
-    out = []
+    out = [dict(name="many_examples", kind="many_examples", weight=400), dict(name="near_kink", kind="near_kink", weight=200)]
     for mi in range(len(MODELS)):
         for src in ("tensor", "dinuc", "shuffle"):
             for use_arg in (False, True):
                 out.append(dict(name="m%d/%s/%s" % (mi, src, "arg" if use_arg else "noarg"), mi=mi, src=src, use_arg=use_arg, weight=100))
     return out
+
+
+def run_many_examples(rec, tier, seed):
+    """9..40 examples in one call (a batch completes several examples; example indices cross 8, 16, 32): every example's attributions and
+    references equal its single-example run, whatever the batch size."""
+    from tangermeme.deep_lift_shap import deep_lift_shap
+    from tangermeme.ersatz import dinucleotide_shuffle
+    rs = numpy.random.RandomState(41 + seed)
+    net = D.build("CAMF", ("ReLU",), ((3, 1, 1, 1),), 2, L, 2, seed % 3)
+    model = Rec(net, False)
+    for N in ((9, 12, 40) if tier == "quick" else (9, 10, 12, 17, 33, 40, 70)):
+        codes = rs.randint(0, 4, (N, L))
+        X = torch.zeros(N, 4, L, dtype=torch.float64)
+        X[torch.arange(N)[:, None], torch.from_numpy(codes), torch.arange(L)[None, :]] = 1
+        for S in (1, 2, 3):
+            Rr = torch.zeros(N, S, 4, L, dtype=torch.float64)
+            rc = rs.randint(0, 4, (N, S, L))
+            for i in range(N):
+                for j in range(S):
+                    Rr[i, j, torch.from_numpy(rc[i, j]), torch.arange(L)] = 1
+            for src in ("tensor", "dinuc"):
+                def kw(idx):
+                    if src == "tensor":
+                        return dict(references=Rr[idx])
+                    return dict(references=dinucleotide_shuffle, random_state=7 + seed)
+                canon = []
+                for i in range(N):
+                    st, val = call(deep_lift_shap, model, X[[i]], n_shuffles=S, batch_size=S, device="cpu", return_references=True, **kw([i]))
+                    canon.append(val if st == "ok" else None)
+                for bs in (1, 2, 3, 5, 7, 8, 9, 16, 24, 32, 33, 1000):
+                    case = dict(fn="deep_lift_shap", model="CAMF", n_examples=N, n_shuffles=S, batch_size=bs, source=src, seed=seed, generator="rs(41+seed)")
+                    st, val = call(deep_lift_shap, model, X, n_shuffles=S, batch_size=bs, device="cpu", return_references=True, **kw(list(range(N))))
+                    rec.case(1, 1)
+                    rec.count("traces_validated_against_impl")
+                    if st != "ok":
+                        if all(c is None for c in canon):
+                            continue
+                        rec.violation("dls:raises", case, observed=val)
+                        continue
+                    for i in range(N):
+                        if canon[i] is None:
+                            continue
+                        if not torch.equal(val[1][i], canon[i][1][0]):
+                            rec.violation("dls:references_depend_on_batching", dict(case, position=i), msg="many examples: references of an example differ from its single-example run")
+                            break
+                        d = (val[0][i] - canon[i][0][0]).abs().max().item()
+                        if d > 1e-12 * max(1.0, canon[i][0][0].abs().max().item()):
+                            rec.violation("dls:attributions_depend_on_batching", dict(case, position=i, max_abs_diff=d),
+                                          msg="many examples: attribution of an example differs from its single-example run")
+                            break
+                rec.observe(N, S, src)
+    rec.sample(dict(kind="many_examples", n_examples=[9, 12, 40], n_shuffles=[1, 2, 3], batch_sizes=[1, 2, 3, 5, 7, 8, 9, 16, 24, 32, 33, 1000]))
+
+
+def run_near_kink(rec, tier, seed):
+    """An example whose pre-activation differs from its reference by a few 1e-6 across a ReLU kink, co-batched with an example whose
+    difference is large: which rule applies to a unit of one pair must not depend on the other pairs of the batch."""
+    from tangermeme.deep_lift_shap import deep_lift_shap
+    Lk = 4
+    x0 = torch.zeros(1, 4, Lk, dtype=torch.float64)
+    x0[0, [0, 1, 2, 3], torch.arange(Lk)] = 1
+    r0 = x0.clone()
+    r0[0, :, 0] = 0
+    r0[0, 2, 0] = 1                                     # reference differs from example 0 only at position 0 (A -> G)
+    x1 = torch.zeros(1, 4, Lk, dtype=torch.float64)
+    x1[0, [3, 3, 0, 1], torch.arange(Lk)] = 1
+    r1 = torch.zeros(1, 4, Lk, dtype=torch.float64)
+    r1[0, [1, 0, 2, 2], torch.arange(Lk)] = 1
+    X = torch.cat([x0, x1])
+    R = torch.stack([r0, r1])                            # (2, 1, 4, L)
+    for act in ("ReLU", "ELU", "Tanh", "Softplus"):
+        for d in (1.5e-6, 2e-6, 3e-6, 5e-6, 8e-6, 5e-5, 1e-3):
+            for base in (-1e-6, -0.4 * d, 0.3):
+                for big in (0.5, 2.0, 50.0, 1000.0):
+                    lin1 = torch.nn.Linear(4 * Lk, 3).double()
+                    lin2 = torch.nn.Linear(3, 2).double()
+                    with torch.no_grad():
+                        lin1.weight.zero_()
+                        lin1.bias.copy_(torch.tensor([base, 0.25, -0.5]))
+                        W = lin1.weight.view(3, 4, Lk)
+                        W[0, 0, 0] = d                  # example 0, unit 0: delta_in = d
+                        W[1, 3, 0] = big                # example 1 (T at position 0 vs C): delta_in = big
+                        W[2, 1, 1] = 0.5
+                        lin2.weight.copy_(torch.tensor([[1.0, -2.0, 0.5], [0.25, 1.0, -1.0]]))
+                        lin2.bias.zero_()
+                    model = torch.nn.Sequential(torch.nn.Flatten(), lin1, D.make_act(act), lin2)
+                    case = dict(fn="deep_lift_shap", arch="Flatten-Linear-%s-Linear" % act, delta_in=d, base=base, co_batched_delta=big)
+                    import warnings
+                    with warnings.catch_warnings():
+                        warnings.simplefilter("ignore")
+                        st0, a0 = call(deep_lift_shap, model, X[[0]], references=R[[0]], device="cpu", hypothetical=True, warning_threshold=1e9)
+                        outs = []
+                        for (idx, bs) in (([0, 1], 2), ([1, 0], 2), ([0, 1], 1)):
+                            st, a = call(deep_lift_shap, model, X[idx], references=R[idx], batch_size=bs, device="cpu", hypothetical=True, warning_threshold=1e9)
+                            outs.append((idx, bs, st, a))
+                    rec.case(1, 1)
+                    rec.count("traces_validated_against_impl", 3)
+                    if st0 != "ok":
+                        rec.violation("dls:raises", case, observed=a0)
+                        continue
+                    for (idx, bs, st, a) in outs:
+                        if st != "ok":
+                            rec.violation("dls:raises", dict(case, examples=idx, batch_size=bs), observed=a)
+                            continue
+                        got = a[idx.index(0)]
+                        dd = (got - a0[0]).abs().max().item()
+                        if dd > 1e-9 * max(1.0, a0[0].abs().max().item()):
+                            rec.violation("dls:attributions_depend_on_batching", dict(case, examples=idx, batch_size=bs, max_abs_diff=dd),
+                                          msg="near-kink pair: attribution changes with the co-batched example")
+                            break
+    rec.sample(dict(kind="near_kink", activations=["ReLU", "ELU", "Tanh", "Softplus"], delta_in=[1.5e-6, 2e-6, 3e-6, 5e-6, 8e-6, 5e-5, 1e-3],
+                    co_batched_delta=[0.5, 2, 50, 1000]))
 
 
 def pool(seed):
@@ -111,6 +223,12 @@ def run_shard(sh, tier, seed):
     from tangermeme.deep_lift_shap import deep_lift_shap
     from tangermeme.ersatz import dinucleotide_shuffle, shuffle
     rec = Recorder(PID, sh["name"])
+    if sh.get("kind") == "many_examples":
+        run_many_examples(rec, tier, seed)
+        return rec.result()
+    if sh.get("kind") == "near_kink":
+        run_near_kink(rec, tier, seed)
+        return rec.result()
     sk, acts, convs = MODELS[sh["mi"]]
     net = build_bn(seed) if sk == "CBAF" else D.build(sk, acts, convs, 2, L, 2, seed % 3)
     model = Rec(net, sh["use_arg"])
@@ -275,6 +393,10 @@ def run_shard(sh, tier, seed):
 
 def replay(v):
     c = v["case"]
+    if "n_examples" in c or "co_batched_delta" in c:
+        r = run_shard(dict(name="replay", kind="many_examples" if "n_examples" in c else "near_kink"), "quick", c.get("seed", 0))
+        hit = [x for x in r["violations"] if x["sig"] == v["sig"]]
+        return (not hit), "re-ran the family: %d violations with signature %s%s" % (len(hit), v["sig"], ("\nfirst: %s" % hit[0]) if hit else "")
     mi = [m[0] for m in MODELS].index(c["model"]) if "model" in c else 0
     r = run_shard(dict(name="replay", mi=mi, src=c.get("source", "tensor"), use_arg=c.get("args", False)), "quick" if len(c.get("examples", [0])) <= 2 and c.get("n_shuffles", 1) <= 3 else "thorough", c.get("seed", 0))
     hit = [x for x in r["violations"] if x["sig"] == v["sig"]]
